@@ -277,6 +277,7 @@ let rec predict (c : string) (obs : string) : string * string * bool =
       let rm = case_rm opts in
       let timeout = ns_of_ms tmo in
       let mode = strip_r mode in
+      let ninst_s = ninst in
       let ninst = nat_of_int (int_of_string ninst) in
       if mode = "d" then begin
         let items = split_blank obs_main in
@@ -323,7 +324,47 @@ let rec predict (c : string) (obs : string) : string * string * bool =
               let ss = List.sort compare (List.map (fun r -> hex_of_bytes r.r_tag ^ ":" ^ string_of_n r.r_code) rs) in
               let cs = List.sort compare (List.filter_map (fun r -> match r.r_out with Sent s -> Some (render_call respond s) | _ -> None) rs) in
               "ok " ^ (if ss = [] then "-" else String.concat "," ss) ^ " " ^ (if cs = [] then "-" else String.concat "|" cs) in
-            let m = json_model shortest_dec grpc_code respond ninst timeout es in
+            (* overload + discard_overflow (ov=…): which tokens are >= 2 s overdue is timing; an entry acquired for a
+               discarded token is reported by a sample tagged "discarded" and is not sent. Tags are distinct in
+               engine mode, so the discarded entries are the acquired ones whose tag no sample carries; the specification of
+               the rest is unchanged (each one sent once, as written), and there is one "discarded" sample per
+               discarded entry. *)
+            let overloaded = List.exists (fun o -> String.length o >= 3 && String.sub o 0 3 = "ov=") opts in
+            let disc_tag = hex_of_bytes (bytes_of_ascii "discarded") in
+            let seen_tags = List.filter_map (fun x -> match String.split_on_char ':' x with [t; _] -> Some t | _ -> None) (split ',' samples) in
+            (* entries are acquired in file order, one sample per acquired entry — except that when the schedule
+               ends before the file does, each instance may have acquired one more entry it gets no token for:
+               with k samples the entries that were acquired are among the first k + ninst - 1 *)
+            let k = if samples = "-" then 0 else List.length (split ',' samples) in
+            let lim = min (List.length es) (k + int_of_string ninst_s - 1) in
+            let es_all = es in
+            let es = if overloaded then List.filter (fun e -> List.mem (hex_of_bytes e.e_tag) seen_tags) (take lim es) else es in
+            let ndisc = max 0 (k - List.length es) in
+            let line rs =
+              if not overloaded then line rs else begin
+                let ss = List.sort compare (List.map (fun r -> hex_of_bytes r.r_tag ^ ":" ^ string_of_n r.r_code) rs
+                                            @ List.init ndisc (fun _ -> disc_tag ^ ":0")) in
+                let cs = List.sort compare (List.filter_map (fun r -> match r.r_out with Sent s -> Some (render_call respond s) | _ -> None) rs) in
+                "ok " ^ (if ss = [] then "-" else String.concat "," ss) ^ " " ^ (if cs = [] then "-" else String.concat "|" cs)
+              end in
+            (* the code-shaped side of an overloaded case: the acquired entries go through the pointer-level pool model
+               (Model/GrpcPool.v) with as many Release calls per discarded token as instance.go has (re-read from the
+               source), in the canonical interleaving: read-ahead of 128, one instance, most recently pooled object first *)
+            let es_model = if not overloaded then es else begin
+              let acq = take lim es_all in
+              let extra = (match extra_releases gen_instance_releases with Some x -> x | None -> O) in
+              let nacq = List.length acq in
+              let evs = ref [] and decoded = ref 0 in
+              List.iteri (fun j e ->
+                while !decoded < min nacq (j + 129) do evs := EDecode O :: !evs; incr decoded done;
+                let fired = List.mem (hex_of_bytes e.e_tag) seen_tags in
+                evs := ERelease O :: (if fired then EShoot O else EDiscard O) :: EAcquire O :: !evs) acq;
+              match prun extra (pinit acq) (List.rev !evs) with
+              | Some s -> shots_of s.ps_out
+              | None -> []
+            end in
+            let es_model = if List.length es_model = List.length es then es_model else es in
+            let m = json_model shortest_dec grpc_code respond ninst timeout es_model in
             let sp = json_spec grpc_code respond timeout es in
             let ok = (line sp = obs_main) && refl_want = refl_obs in
             (* the specification with the known float64 family factored out: entries carrying an
@@ -339,7 +380,7 @@ let rec predict (c : string) (obs : string) : string * string * bool =
                 | [_; ws; wc] -> if ws <> samples then "json-engine:samples" else if wc <> callstr then "json-engine:calls" else "json-engine"
                 | _ -> "json-engine"
               end in
-            (line m ^ " refl=" ^ refl_want, verdict ok why, List.length es > 1)
+            (line m ^ " refl=" ^ refl_want, verdict ok why, if overloaded then ndisc > 0 && List.length es > 1 else List.length es > 1)
         | _ -> ("?", "BAD:json-engine:observation-shape:" ^ obs, false)
       end
   | "scen" :: ninst :: tmo :: order :: users :: defs :: scens :: opts ->
